@@ -9,7 +9,7 @@ ST_RESP, ST_CONF, ST_ERR, ST_NOTICE = 3, 4, 5, 6
 
 
 class HA:
-    def __init__(self, sess, rng, r, nep, kind='sign', label='', cache=4):
+    def __init__(self, sess, rng, r, nep, kind='sign', label='', cache=4, prior_conf=None):
         self.s, self.rng, self.r, self.nep, self.kind, self.label = sess, rng, r, nep, kind, label
         c = sess.cmd
         self.now = 1700000000
@@ -19,6 +19,26 @@ class HA:
         # the endpoints are configured with addEndpoint only, or the first one with setEndpoint (which resets what was configured before:
         # here nothing, or a dummy endpoint that must be gone afterwards)
         self.setup = random.Random('%s/%s/%d' % (label, kind, nep)).choice(['add', 'add', 'set', 'set-after-dummy'])
+        if prior_conf is not None:
+            # the service object has a HISTORY: it was pointed at another endpoint before, which answered a request and pushed a configuration with
+            # extreme (in-range) values; KSI_AsyncService_setEndpoint then replaces the endpoints - nothing of the old endpoint may survive
+            self.setup = 'set-after-history'
+            c('net_ep old.example 1 connect=0 send=- recv=-')
+            c('async_endpoint 0 add ksi+tcp://old.example:1 anon anon')
+            c('async_opt 0 max_request_count 1000')
+            c('async_add 0 0 %s old' % ('sign %s 0' % R.H(1, b'old').hex() if kind == 'sign' else 'ext 1500000000 -'))
+            for _ in range(3):
+                self.now += 1
+                c('clock %d' % self.now)
+                c('async_run 0')
+            for info in [i for i in sess.tcp_order if i['open'] and i['host'] == 'old.example']:
+                el = S.conf_elem('aggr' if kind == 'sign' else 'ext', 2, **prior_conf)
+                c('net_push %d %s' % (info['fd'], S.wrap_v2(S.AGGR_RESP_V2 if kind == 'sign' else S.EXT_RESP_V2, [el], KEY).hex()))
+                info['sent'] = bytearray()
+            for _ in range(3):
+                self.now += 1
+                c('clock %d' % self.now)
+                c('async_run 0')
         if self.setup == 'set-after-dummy':
             c('net_ep dummy.example 1 connect=2 send=- recv=-')
             q = c('async_endpoint 0 add ksi+tcp://dummy.example:1 anon anon')
@@ -393,10 +413,13 @@ def parse_conf(s):
     return out
 
 
-def scenario_config(sess, rng, r, kind, confs, perm, label):
+def scenario_config(sess, rng, r, kind, confs, perm, label, history=False):
     """confs: list of dicts (one pushed configuration per endpoint, in endpoint order); perm: arrival order"""
     nep = len(confs)
-    ha = HA(sess, rng, r, nep, kind, label)
+    prior = None
+    if history:
+        prior = dict(max_level=20, aggr_period=100, max_req=16000) if kind == 'sign' else dict(max_req=16000, cal_first=1136073600, cal_last=4000000000)
+    ha = HA(sess, rng, r, nep, kind, label, prior_conf=prior)
     c = sess.cmd
     c('set_conf_cb 0')
     sess.conf_callbacks = []
@@ -478,7 +501,10 @@ def worker(job, r):
             ref = reference_consolidation(kind, confs)
             results = {}
             for perm in itertools.permutations(range(nep)):
-                got = scenario_config(sess, rng, r, kind, confs, perm, 'c%d-%d' % (seed, ci))
+                hist = (ci + sum(perm)) % 3 == 0
+                got = scenario_config(sess, rng, r, kind, confs, perm, 'c%d-%d' % (seed, ci), history=hist)
+                if hist:
+                    r.count('ha_config_scenarios_with_history')
                 if got is None:
                     continue
                 results[perm] = got
